@@ -399,6 +399,25 @@ async fn run_scenario(out: &mut dyn Write, viol: &mut u64, base: &Utf8PathBuf, s
         let peers = if *e == 1 { "2" } else { "1" };
         rec(out, &format!("daemon route {} {} {}", e, peers, if hdrs.is_empty() { "-".to_string() } else { hdrs.join(",") }), &format!("spawned=[{}]", set.join(",")));
     }
+    // the routing key `forward_pdu` used for every PDU it saw (hook trace), against the model's `key`
+    {
+        let trace: Vec<_> = cfdp_daemon::verif::ROUTE_TRACE.lock().map(|mut t| std::mem::take(&mut *t)).unwrap_or_default();
+        let mut seen = BTreeSet::new();
+        for (_entity, h, key) in trace {
+            let hr = format!(
+                "{}:{}:{}:{}",
+                if h.direction == Direction::ToReceiver { "R" } else { "S" },
+                h.source_entity_id.to_u64(),
+                h.transaction_sequence_number.to_u64(),
+                h.destination_entity_id.to_u64()
+            );
+            let line = (hr, id_repr(&key));
+            *tally.entry("routed").or_insert(0) += 1;
+            if seen.insert(line.clone()) {
+                rec(out, &format!("daemon key {}", line.0), &format!("key={}", line.1));
+            }
+        }
+    }
     *tally.entry("faults_planned").or_insert(0) += (sc.plan.len() + sc.kplan.len()) as u64;
     *tally.entry("faults_hit").or_insert(0) += log.lock().unwrap().iter().filter(|l| l.ends_with(")") ).count() as u64;
     *tally.entry("pdus_on_link").or_insert(0) += log.lock().unwrap().len() as u64;
